@@ -690,7 +690,14 @@ func (c C03) Run(t *tape.Tape, opt core.RunOpt) (res core.Result) {
 			hg := &workload.Gen{T: t}
 			var hist []string
 			for step := 0; step < 2+t.Draw(3); step++ {
-				hg.St = workload.ReadSymTab(hr, hg.N)
+				ok := false
+				ctx.guard("load history: Root.Types() walked through the public API", "", strings.Join(hist, "\n=== next load ===\n"), func() {
+					hg.St = workload.ReadSymTab(hr, hg.N)
+					ok = true
+				})
+				if !ok {
+					break
+				}
 				hg.ResetDoc()
 				var doc strings.Builder
 				for k := 0; k < 1+t.Draw(3); k++ {
